@@ -82,7 +82,7 @@ func runCheck(repo, prop, tier string, rest []string) int {
 	if s := os.Getenv("VERIF_SEED"); s != "" {
 		seed, _ = strconv.Atoi(s)
 	}
-	timeout := 20
+	timeout := 30
 	if tier == "thorough" {
 		timeout = 90
 	}
